@@ -42,6 +42,8 @@ def run_one(lane, sid):
         res = {"property": pid, "result": "TIMEOUT"}
     finally:
         sh(["git", "-C", d + "/repo", "checkout", "--", "."])
+        # a failed translation leaves the previous Tables.v in place: regenerate from the clean tree between changes
+        sh(["python3", d + "/verif/tools/gen_tables.py", d + "/repo", d + "/verif/coq/theories/Tables.v"])
     return sid, res
 
 
